@@ -1,7 +1,7 @@
 (* C02: parse_render theorems for the 12-hour clock: YYYY-MM-DD hh:MM[:SS][ ]AM/PM. *)
 From Coq Require Import ZArith List Bool Lia ZifyBool.
 From V Require Import base.Cal gen.ParseTables parse.Lex parse.Prim parse.Ymd parse.Parse parse.Build
-                      parse.ParseSpec parse.LexSeg parse.TokFacts parse.YearThm parse.RenderTac parse.RenderTac3 parse.RenderIso parse.Render12Defs.
+                      parse.ParseSpec parse.LexSeg parse.TokFacts parse.YearThm parse.RenderTac parse.RenderTac3 parse.RenderIso parse.Render12Defs parse.RenderTac4.
 Import ListNotations.
 Open Scope Z_scope.
 Ltac Zify.zify_post_hook ::= Z.to_euclidean_division_equations.
@@ -73,8 +73,8 @@ Proof.
   (rewrite timelex_segments
      by (unfold segs12, date_segs, t12_segs; cbn [app wf_segs wf_seg hd_error ok_next];
          rewrite ?digits_n_all_digit, ?digits_n_length, ?nonempty_digits; vm_compute; reflexivity));
-  unfold segs12, date_segs, t12_segs; cbn [app map seg_tok];
-  repeat (progress (unfold adjust_ampm; sym2; zeq));
+  unfold segs12, date_segs, t12_segs; cbn [app map seg_tok length];
+  lrun ltac:(unfold adjust_ampm; zeq);
   try match goal with |- (if ?b then _ else _) = _ => destruct b end;
   zeq; first [reflexivity | (repeat f_equal; lia)].
 Qed.
